@@ -64,7 +64,8 @@ func (p *FrameParser) Parse(buffer []byte) error {
 		err = nil
 	}
 	if err != nil {
-		return fmt.Errorf("parse: %w", err)
+		// a packet gopacket cannot decode is malformed input, not a failure of the traceroute
+		return &common.BadPacketError{Err: fmt.Errorf("parse: %w", err)}
 	}
 	if err := p.checkLayers(); err != nil {
 		return &common.BadPacketError{Err: err}
